@@ -41,4 +41,11 @@ PY_PALETTE = [
     {"$py": "key", "which": "private", "seed": "00" * 32}, {"$py": "key", "which": "public", "seed": "00" * 32},
 ]
 
-ALL = JSON_PALETTE + PY_PALETTE
+# containers and byte strings whose LENGTH equals a grammar's fixed length (40 / 64 / 128): length-first checks
+SIZED = []
+for _n in (39, 40, 41, 64, 128):
+    SIZED += [{"$py": "listn", "n": _n}, {"$py": "dictn", "n": _n}, {"$py": "bytesn", "n": _n}, {"$py": "tuplen", "n": _n},
+              {"$py": "listn", "n": _n, "item": "ab"}, {"$py": "bytesn", "n": _n, "ch": "0"}]
+SIZED += [{"$py": "listn", "n": 40, "item": 0}, {"$py": "dictn", "n": 2, "prefix": "signature"}]
+
+ALL = JSON_PALETTE + PY_PALETTE + SIZED
